@@ -166,9 +166,10 @@ namespace Givaro {
 
         Element &dxgcd(Element &g, Element &s, Element &t, Element &u, Element &v, const Element &a, const Element &b) const
         {
-            gcd(g,s,t,a,b);
-            div(u,a,g);
-            div(v,b,g);
+            const Element aa(a), bb(b); // the outputs may be the same objects as a or b
+            gcd(g,s,t,aa,bb);
+            div(u,aa,g);
+            div(v,bb,g);
             return g;
         }
 
